@@ -207,6 +207,24 @@ def check_lock_pair(run, repo, world, fns):
             run.ob("R-LOCK-PAIR", F.q + "#guard", okg,
                    "acquire/release of transaction_lock must both be guarded "
                    "by `not in_transaction`", where(mod, F.fn))
+            # ... and the flag is the caller's statement that *it* holds the
+            # lock: the function does not compute its own
+            rebound = []
+            for n_ in ast.walk(F.fn):
+                if isinstance(n_, ast.Name) and n_.id == "in_transaction" \
+                        and isinstance(n_.ctx, (ast.Store, ast.Del)):
+                    p_ = getattr(n_, "_parent", None)
+                    v_ = getattr(p_, "value", None)
+                    if isinstance(p_, ast.Assign) and unparse(v_) in (
+                            "bool(in_transaction)", "in_transaction"):
+                        continue
+                    rebound.append(n_)
+            run.ob("R-LOCK-PAIR", F.q + "#flag-is-callers", not rebound,
+                   "in_transaction is recomputed inside the function (line "
+                   "%s): whether this caller holds transaction_lock is "
+                   "only known to the caller (locked() says somebody holds "
+                   "it)" % ", ".join(str(n_.lineno) for n_ in rebound),
+                   where(mod, F.fn))
     run.floor("functions managing transaction_lock", npair, 5)
     # one hold of the lock per sequence: after a release nothing more of
     # the sequence is transmitted (no release / re-acquire in the middle)
